@@ -373,6 +373,14 @@ func (ex *Explorer) runPath(in *Interp, it *workItem) {
 		ex.mu.Unlock()
 		return
 	}
+	if !ex.cfg.Deadline.IsZero() && time.Now().After(ex.cfg.Deadline) {
+		ex.inconclusive("budget: wall-clock deadline reached before the exploration finished")
+		ex.mu.Lock()
+		ex.stop = true
+		ex.cond.Broadcast()
+		ex.mu.Unlock()
+		return
+	}
 	in.resetPath(it.prefix, it.model)
 	in.logging = true
 	outcome := "completed"
